@@ -359,12 +359,15 @@ class Unit:
                 self._baseline = {}
         return self._baseline
 
-    def generate(self, repo, probe=False, drop=()):
+    def generate(self, repo, probe=False, drop=(), inline=()):
         """returns (text, info) ; info lists functions under contract, rules fired, splice ids.
-        drop: splice ids (proof hints) to leave out."""
+        drop: splice ids (proof hints) to leave out.
+        inline: names of helper functions that are not part of the unit (an edit extracted them out of an item under contract):
+        rule R9h (vxlib/autohelper.py) puts their bodies back at the call sites before every other rewrite."""
         import copy
         out = []
         info = {"items": [], "splices": [], "alpha_renamed": {}, "dropped_hints": sorted(drop)}
+        self._last_info = info      # R9h: what was inlined / refused stays readable when generation fails half-way
         self._drop = set(drop)
         base = self._load_baseline()
         for kind, part in self.parts:
@@ -374,13 +377,19 @@ class Unit:
             spec = part
             log = {}
             it = find_item(repo, spec.path, "fn" if spec.kind == "region" else spec.kind, spec.name, spec.container)
+            # --- R9h begin: helpers an edit extracted out of this item are inlined back, on the RAW source text
+            src_text = it.text
+            if inline and spec.kind in ("fn", "region"):
+                from . import autohelper
+                src_text = autohelper.inline_item(repo, spec.path, spec.container, it.text, list(inline), log, info, self.item_key(spec), region=(spec.kind == "region"), baseline=base.get(self.item_key(spec)))
+            # --- R9h end (below, `src_text` stands where `it.text` stood)
             # proof text is written against the baseline source; if the current source is the baseline with locals/parameters
             # consistently renamed, the unit's text for this item is alpha-renamed to follow it
             btxt = base.get(self.item_key(spec))
-            if btxt is not None and btxt != it.text:
-                ren = alpha_map(btxt, it.text)
+            if btxt is not None and btxt != src_text:
+                ren = alpha_map(btxt, src_text)
                 if ren is None:
-                    ren = alpha_map_tolerant(btxt, it.text)
+                    ren = alpha_map_tolerant(btxt, src_text)
                 if ren:
                     spec = copy.deepcopy(spec)
                     spec.ret = spec.ret
@@ -398,9 +407,9 @@ class Unit:
                         spec.region = rg
                     info["alpha_renamed"][self.item_key(spec)] = ren
             if spec.kind == "region":
-                text = self._lift_region(it.text, spec, log)
+                text = self._lift_region(src_text, spec, log)
             else:
-                text = it.text
+                text = src_text
             text = rw.r10_decoration(text, log)
             text = rw.r1_async(text, log)
             _rules = all_rules(self.name, self.rules_from)
@@ -435,12 +444,20 @@ class Unit:
             n_probe = 0
             if spec.kind == "region":
                 sid_base = "%s/%s" % (self.name, (spec.container + "::" if spec.container else "") + spec.name + "#" + spec.region.get("name", "region"))
+            if src_text is not it.text and src_text != it.text:
+                info.setdefault("inlined_items", []).append(sid_base)      # R9h: ids of the items that had a helper inlined
             if spec.kind in ("fn", "region"):
                 text, n_probe = self._splice_fn(text, spec, sid_base, info, probe and not spec.noprobe)
             if spec.kind in ("fn", "region") and os.environ.get("VX_LOOP_ISO", "1") == "0" and re.search(r"\b(while|for|loop)\b", text) and "{" in text:
                 # loops see the facts established before them (unmodified variables keep what is known about them): an edit
                 # that introduces a local before a loop then does not need a new invariant clause
                 text = "#[verifier::loop_isolation(false)]\n" + text
+            if spec.kind in ("fn", "region") and not probe and self.item_key(spec) in info.get("inlined_loop_needs_context", []) and not text.startswith("#[verifier::loop_isolation(false)]"):
+                # R9h: a loop came back from a helper whose PARAMETER names differ from the baseline's variable names: the invariants
+                # speak about the baseline names, the parameter bindings `let p: T = a;` sit in front of the loop - the loop must see them.
+                # (Only more facts for the solver; not in the probe file, where an earlier `assert(false)` would then hide the loop probes.)
+                text = "#[verifier::loop_isolation(false)]\n" + text
+                log["R9h loop sees the parameter bindings (loop_isolation(false))"] = 1
             a, b = it.line_span()
             sha = hashlib.sha256(it.text.encode()).hexdigest()[:16]
             header = "// vx-item %s @ %s:%d-%d sha256=%s rules=[%s]\n" % (sid_base, spec.path, a, b, sha, "; ".join("%s x%d" % kv for kv in sorted(log.items())))
@@ -458,10 +475,13 @@ class Unit:
         if "from" not in rg or "sig" not in rg:
             raise UnitError("region %s needs from/block and sig" % spec.name)
         st = sig(lex(fn_text))
+        # R9h: tokens that helper inlining generated (block braces, parameter bindings) are not occurrences of an anchor
+        from .autohelper import generated_token_indices
+        gen_ = generated_token_indices(fn_text)
 
         def locate(anchor, nth):
             pat = [t.text for t in sig(lex(anchor))]
-            hits = rw.find_seq(st, pat)
+            hits = [h_ for h_ in rw.find_seq(st, pat) if not any(k_ in gen_ for k_ in range(h_, h_ + len(pat)))]
             if nth == 0 and len(hits) != 1:
                 # the anchored statement was edited (or duplicated): the region boundary is the place the baseline source's
                 # anchor aligns with (token alignment); a region is only ever the real statements between two boundaries, so a
